@@ -195,25 +195,31 @@ Definition build_root (o : opts) (e : env) : ignore :=
                  sh_opts := o |} |}.
 
 (* Ignore::add_child_path (the node it creates) *)
-(* add_child_path's `git_type`: dir/.git is looked at only when repositories are required and a git
-   source is on; otherwise it is None, like for a directory without .git *)
+(* add_child_path's `git_type`: dir/.git is looked at whenever a git source is on (since the repair of
+   GitlinkExcludeNoRequire independently of require_git); otherwise it is None, like for a directory
+   without .git *)
 Definition git_type_seen (o : opts) (d : dirinfo) : dotgit :=
+  if o_git_ignore o || o_git_exclude o then di_dotgit d else GitAbsent.
+(* as it was on the pinned tree (kept for the refutation): only when repositories are required *)
+Definition git_type_seen_pinned (o : opts) (d : dirinfo) : dotgit :=
   if o_require_git o && (o_git_ignore o || o_git_exclude o) then di_dotgit d else GitAbsent.
 
 (* resolve_git_commondir(dir, git_type) followed by create_gitignore(dir, git_dir, ["info/exclude"]):
    when git_type says "file" the gitlink is followed to $GIT_COMMON_DIR, whose info/exclude is
    [di_exclude]; otherwise dir/.git is taken for the git directory -- if that is in fact a gitfile
    (git_type was not computed) nothing can be opened below it and the matcher is empty *)
-Definition exclude_as_read (o : opts) (d : dirinfo) : gmatcher :=
-  match git_type_seen o d, di_dotgit d with
+Definition exclude_as_read_with (seen : opts -> dirinfo -> dotgit) (o : opts) (d : dirinfo) : gmatcher :=
+  match seen o d, di_dotgit d with
   | GitFile, _ => di_exclude d
   | _, GitFile => g_empty
   | _, _ => di_exclude d
   end.
+Definition exclude_as_read := exclude_as_read_with git_type_seen.
 
 Definition child_node (sh : shared) (d : dirinfo) : node :=
   let o := sh_opts sh in
-  let has_git := child_dotgit_test (git_type_seen o d) in
+  (* has_git = self.0.opts.require_git && git_type.is_some() *)
+  let has_git := o_require_git o && child_dotgit_test (git_type_seen o d) in
   {| nd_dir := di_path d;
      nd_custom := if sh_custom_names_empty sh then g_empty else di_custom d;
      nd_ignore := if negb (o_ignore o) then g_empty else di_dotignore d;
